@@ -1056,3 +1056,4 @@ LEVEL_NOTE = ("the tie compares, for every monitored function, every cell (paren
               "oracle re-checks signature-before == signature-after, object-identity disjointness and non-visibility of later mutations")
 TECHNIQUE = "Lean 4 proof (frame/separation theorems on a pointer-store model with deep copy) + runtime monitor tied to the model by differential testing"
 RULE = RULE + ' Fourth session: DAGs with several roots and zig-zag shapes, a second copy of a DAG after the first was edited, the nodes handed out by yield_tree must be fresh, chains of 105-150 levels for the copying functions with later growth below former leaves, tree_to_dot with attribute-named styles plus graph-wide defaults.'
+RULE = RULE + ' Fifth session: the input tree is frozen while it is read (pre-assign hooks of its nodes raise during the monitored call); a tuple attribute holding a list and an attribute name with a scalar on the root and lists below are changed in place on either side after every copying function; tree_to_dot in its list form; yield_tree after an earlier rendering with other attribute values, with a label check of the nodes handed out.'
